@@ -234,4 +234,15 @@ psf_close_rsrc (SF_PRIVATE *psf)
 	psf->rsrc.filedes = -1 ;
 	return 0 ;
 }
-void	psf_use_rsrc (SF_PRIVATE *psf, int on_off)	{ (void) psf ; (void) on_off ; }
+void
+psf_use_rsrc (SF_PRIVATE *psf, int on_off)
+{	/* as src/file_io.c: switch the handle's descriptor to the resource fork and back */
+	if (on_off)
+	{	if (psf->file.filedes != psf->rsrc.filedes)
+		{	psf->file.savedes = psf->file.filedes ;
+			psf->file.filedes = psf->rsrc.filedes ;
+			} ;
+		}
+	else if (psf->file.filedes == psf->rsrc.filedes)
+		psf->file.filedes = psf->file.savedes ;
+}
